@@ -76,6 +76,15 @@ def cases(tier):
                 out.append(("ARR-INI %d %s %d %s" % (n, e1, m, e2), "fn f()\n{\n\tvar a: [%d]%s;\n\tvar b: [%d]%s = a;\n}\n" % (m, e2, n, e1), None))   # arrays are never copied (E531)
                 out.append(("ARR-ASG %d %s %d %s" % (n, e1, m, e2), "fn f()\n{\n\tvar a: [%d]%s;\n\tvar b: [%d]%s;\n\tb = a;\n}\n" % (m, e2, n, e1), None))
                 out.append(("ARR-PTR %d %s %d %s" % (n, e1, m, e2), "fn g(x: &[%d]%s)\n{\n}\nfn f()\n{\n\tvar a: [%d]%s;\n\tg(&a);\n}\n" % (n, e1, m, e2), "OK" if e1 == e2 and n == m else None))
+    # long chains of member accesses through pointers to pointers (each step needs two automatic dereferences:
+    # the budget of the typer's autoderef loop was too small from 85 steps on - D61): the type of the whole
+    # reference is the type of the last member
+    NODE = "struct Node\n{\n\tnext: &&Node,\n\tvalue: i32,\n\tflag: bool,\n}\nfn takes_node(x: Node)\n{\n}\nfn takes_i32(x: i32)\n{\n}\nfn takes_bool(x: bool)\n{\n}\n"
+    for k in (1, 40, 84, 85, 86, 100, 126):
+        for member, callee, verdict in (("value", "takes_i32", "OK"), ("value", "takes_node", None), ("value", "takes_bool", None), ("flag", "takes_bool", "OK"), ("flag", "takes_i32", None)):
+            out.append(("DEEP %d %s %s" % (k, member, callee), NODE + "fn f(n: &Node)\n{\n\t%s(n%s.%s);\n}\n" % (callee, ".next" * k, member), verdict))
+        out.append(("DEEP-ASG %d" % k, NODE + "fn f(n: &Node)\n{\n\tn%s.value = 5;\n}\n" % (".next" * k), "OK"))
+        out.append(("DEEP-ASGBAD %d" % k, NODE + "fn f(n: &Node)\n{\n\tn%s.value = true;\n}\n" % (".next" * k), None))
     for a in PRIMS:
         out.append(("MEMOK %s" % a, "struct H\n{\n\tm: %s,\n}\nfn f(v: %s)\n{\n\tvar h = H { m: v };\n}\n" % (a, a), "OK"))
     return out
